@@ -1,7 +1,16 @@
 // C36 — subscription filters bound what peers can make us track.
-// Contract from the statement, on the real filter_incoming_subscriptions of
-// WhitelistSubscriptionFilter, MaxCountSubscriptionFilter<Whitelist> and
-// CombinedSubscriptionFilters<Whitelist, Whitelist>:
+// Contract from the statement, on the VERBATIM text of subscription_filter.rs
+// (trait TopicSubscriptionFilter with its default methods, WhitelistSubscriptionFilter,
+// MaxCountSubscriptionFilter, CombinedSubscriptionFilters: extracted item by item on
+// every run, unit.json `fragments`) compiled in the private module `frag` against
+// DECLARED stand-ins:
+//   * `TopicHash` is a one-byte newtype (the filters use a topic only through
+//     Clone / Eq / Ord / Hash; the real one wraps a String -- measured: with String topics
+//     in shim cells and a real BTreeSet even a one-entry request timed out at 240 s);
+//   * `Subscription` has the three fields of crate::types::Subscription with the REAL
+//     SubscriptionAction / SubscriptionOpts and the same derives;
+//   * HashMap / HashSet / BTreeSet are the dependency shims (CAP 4).
+// Obligations:
 //  * every returned subscription is one of the request's entries and its topic is
 //    allowed by the filter (so the tracked set, which only ever grows by returned
 //    Subscribe entries, contains allowed topics only);
@@ -9,64 +18,90 @@
 //    Ok(result) => the tracked set AFTER applying result has <= max_subscribed_topics topics;
 //  * Err => nothing changed (the filter's own state; the tracked set is only changed by
 //    the caller on Ok).
-// HashMap/HashSet -> dependency shim; the tracked set stays a real std BTreeSet.
-// Requests: <= 3 entries over 3 one-letter topics, symbolic actions, two topic patterns
-// (all distinct / with a duplicate topic); tracked set: any subset of the 3 topics.
+// Requests: <= 3 entries with SYMBOLIC topics out of 3 and symbolic actions (so every
+// duplicate pattern is covered); tracked set and whitelists: any subset of the 3 topics.
 include!(concat!(env!("LIBP2P_VERIF"), "/shims/tracing_off.rs"));
 
-use crate::types::{SubscriptionAction, SubscriptionOpts};
+pub(crate) mod frag {
+    #![allow(dead_code, unused_imports)]
+    pub(crate) use crate::types::{SubscriptionAction, SubscriptionOpts};
+    pub(crate) use crate::verif_shims::{BTreeSet, HashMap, HashSet};
 
-fn topics() -> [TopicHash; 3] {
-    [TopicHash::from_raw("a"), TopicHash::from_raw("b"), TopicHash::from_raw("c")]
+    /// stand-in for crate::TopicHash (a String newtype): one byte
+    #[derive(Debug, Clone, PartialEq, Eq, Hash, PartialOrd, Ord)]
+    pub(crate) struct TopicHash(pub(crate) u8);
+
+    /// stand-in for crate::types::Subscription: same fields, same derives
+    #[derive(Debug, Clone, PartialEq, Eq, Hash)]
+    pub(crate) struct Subscription {
+        pub(crate) action: SubscriptionAction,
+        pub(crate) topic_hash: TopicHash,
+        pub(crate) options: SubscriptionOpts,
+    }
+
+    include!(concat!(env!("LIBP2P_VERIF_GEN"), "/C36/filters_fragment.rs"));
 }
+use frag::{
+    BTreeSet, CombinedSubscriptionFilters, HashSet, MaxCountSubscriptionFilter, Subscription, SubscriptionAction,
+    SubscriptionOpts, TopicHash, TopicSubscriptionFilter, WhitelistSubscriptionFilter,
+};
 
 fn any_action() -> SubscriptionAction {
     if kani::any() { SubscriptionAction::Subscribe } else { SubscriptionAction::Unsubscribe }
 }
+fn any_topic() -> TopicHash {
+    let t: u8 = kani::any();
+    kani::assume(t < 3);
+    TopicHash(t)
+}
 
-/// request entries about topics t[pat[0]], t[pat[1]], t[pat[2]] with symbolic actions
-fn request(t: &[TopicHash; 3], pat: [usize; 3]) -> [Subscription; 3] {
+/// three request entries with symbolic topics (out of 3) and symbolic actions
+fn request() -> [Subscription; 3] {
     [
-        Subscription { action: any_action(), topic_hash: t[pat[0]].clone(), options: SubscriptionOpts::default() },
-        Subscription { action: any_action(), topic_hash: t[pat[1]].clone(), options: SubscriptionOpts::default() },
-        Subscription { action: any_action(), topic_hash: t[pat[2]].clone(), options: SubscriptionOpts::default() },
+        Subscription { action: any_action(), topic_hash: any_topic(), options: SubscriptionOpts::default() },
+        Subscription { action: any_action(), topic_hash: any_topic(), options: SubscriptionOpts::default() },
+        Subscription { action: any_action(), topic_hash: any_topic(), options: SubscriptionOpts::default() },
     ]
 }
 
-fn any_tracked(t: &[TopicHash; 3]) -> (BTreeSet<TopicHash>, [bool; 3]) {
+fn any_tracked() -> (BTreeSet<TopicHash>, [bool; 3]) {
     let mut s = BTreeSet::new();
     let mut inn = [false; 3];
-    let mut j = 0;
+    let mut j = 0u8;
     while j < 3 {
         if kani::any() {
-            s.insert(t[j].clone());
-            inn[j] = true;
+            s.insert(TopicHash(j));
+            inn[j as usize] = true;
         }
         j += 1;
     }
     (s, inn)
 }
 
-fn any_whitelist(t: &[TopicHash; 3]) -> (WhitelistSubscriptionFilter, [bool; 3]) {
+fn any_whitelist() -> (WhitelistSubscriptionFilter, [bool; 3]) {
     let mut w = HashSet::new();
     let mut allowed = [false; 3];
-    let mut j = 0;
+    let mut j = 0u8;
     while j < 3 {
         if kani::any() {
-            w.insert(t[j].clone());
-            allowed[j] = true;
+            w.insert(TopicHash(j));
+            allowed[j as usize] = true;
         }
         j += 1;
     }
     (WhitelistSubscriptionFilter(w), allowed)
 }
 
-fn index_of(t: &[TopicHash; 3], x: &TopicHash) -> usize {
-    if *x == t[0] { 0 } else if *x == t[1] { 1 } else { 2 }
+fn flag(a: &[bool; 3], t: &TopicHash) -> bool {
+    match t.0 {
+        0 => a[0],
+        1 => a[1],
+        _ => a[2],
+    }
 }
 
 /// result ⊆ request[..n], and every returned topic is allowed
-fn subset_and_allowed(res: &HashSet<&Subscription>, req: &[Subscription; 3], n: usize, t: &[TopicHash; 3], allowed: &[bool; 3]) {
+fn subset_and_allowed(res: &HashSet<&Subscription>, req: &[Subscription; 3], n: usize, allowed: &[bool; 3]) {
     for r in res.iter() {
         let mut found = false;
         let mut i = 0;
@@ -76,64 +111,60 @@ fn subset_and_allowed(res: &HashSet<&Subscription>, req: &[Subscription; 3], n: 
             }
             i += 1;
         }
-        assert!(found);
-        assert!(allowed[index_of(t, &r.topic_hash)]);
+        assert!(found, "a returned subscription is not an entry of the request");
+        assert!(flag(allowed, &r.topic_hash), "a returned subscription is about a topic the filter does not allow");
     }
 }
 
-/// size of the tracked set after applying `res` to it
-fn tracked_after(res: &HashSet<&Subscription>, t: &[TopicHash; 3], inn: &[bool; 3]) -> usize {
+/// size of the tracked set after the caller applied `res` to it
+fn tracked_after(res: &HashSet<&Subscription>, inn: &[bool; 3]) -> usize {
     let mut post = *inn;
     for r in res.iter() {
-        let j = index_of(t, &r.topic_hash);
-        post[j] = matches!(r.action, SubscriptionAction::Subscribe);
+        let v = matches!(r.action, SubscriptionAction::Subscribe);
+        match r.topic_hash.0 {
+            0 => post[0] = v,
+            1 => post[1] = v,
+            _ => post[2] = v,
+        }
     }
     post[0] as usize + post[1] as usize + post[2] as usize
-}
-
-fn whitelist_case(pat: [usize; 3]) {
-    let t = topics();
-    let req = request(&t, pat);
-    let n: usize = kani::any();
-    kani::assume(n <= 3);
-    let (tracked, _) = any_tracked(&t);
-    let (mut f, allowed) = any_whitelist(&t);
-    let r = f.filter_incoming_subscriptions(&req[..n], &tracked);
-    match &r {
-        Ok(res) => subset_and_allowed(res, &req, n, &t, &allowed),
-        Err(_) => assert!(false), // the whitelist filter never rejects a request, it only drops entries
-    }
-    // can_subscribe agrees with the whitelist
-    let j: usize = kani::any();
-    kani::assume(j < 3);
-    assert!(f.can_subscribe(&t[j]) == allowed[j]);
-    std::mem::forget(r);
-    std::mem::forget((f, tracked, req, t));
 }
 
 tracing_off! {
 #[kani::proof]
 #[kani::unwind(6)]
 fn whitelist_returns_only_allowed_request_entries() {
-    whitelist_case([0, 1, 2]);
+    let req = request();
+    let n: usize = kani::any();
+    kani::assume(n <= 3);
+    let (tracked, _) = any_tracked();
+    let (mut f, allowed) = any_whitelist();
+    let r = f.filter_incoming_subscriptions(&req[..n], &tracked);
+    kani::cover!(n == 3 && req[0].topic_hash == req[1].topic_hash);
+    match &r {
+        Ok(res) => {
+            subset_and_allowed(res, &req, n, &allowed);
+            kani::cover!(res.len() == 3);
+        }
+        Err(_) => assert!(false, "the whitelist filter rejected a request (it only drops entries)"),
+    }
+    // can_subscribe agrees with the whitelist
+    let j = any_topic();
+    assert!(f.can_subscribe(&j) == flag(&allowed, &j));
+    std::mem::forget(r);
+    std::mem::forget((f, tracked, req));
 }
 }
 
 tracing_off! {
 #[kani::proof]
 #[kani::unwind(6)]
-fn whitelist_returns_only_allowed_request_entries_dup() {
-    whitelist_case([0, 0, 1]);
-}
-}
-
-fn max_count_case(pat: [usize; 3]) {
-    let t = topics();
-    let req = request(&t, pat);
+fn max_count_bounds_request_and_tracked_set() {
+    let req = request();
     let n: usize = kani::any();
     kani::assume(n <= 3);
-    let (tracked, inn) = any_tracked(&t);
-    let (w, allowed) = any_whitelist(&t);
+    let (tracked, inn) = any_tracked();
+    let (w, allowed) = any_whitelist();
     let max_topics: usize = kani::any();
     let max_req: usize = kani::any();
     kani::assume(max_topics <= 4 && max_req <= 4);
@@ -143,9 +174,9 @@ fn max_count_case(pat: [usize; 3]) {
     kani::cover!(r.is_err() && n <= max_req);
     match &r {
         Ok(res) => {
-            assert!(n <= max_req);
-            subset_and_allowed(res, &req, n, &t, &allowed);
-            assert!(tracked_after(res, &t, &inn) <= max_topics);
+            assert!(n <= max_req, "a request with more than max_subscriptions_per_request entries was accepted");
+            subset_and_allowed(res, &req, n, &allowed);
+            assert!(tracked_after(res, &inn) <= max_topics, "accepted request lets the tracked set exceed max_subscribed_topics");
         }
         Err(_) => {}
     }
@@ -154,27 +185,11 @@ fn max_count_case(pat: [usize; 3]) {
     }
     // a rejected (and an accepted) request leaves the filter itself unchanged
     assert!(f.max_subscribed_topics == max_topics && f.max_subscriptions_per_request == max_req);
-    let j: usize = kani::any();
-    kani::assume(j < 3);
-    assert!(f.filter.0.contains(&t[j]) == allowed[j]);
+    let j = any_topic();
+    assert!(f.filter.0.contains(&j) == flag(&allowed, &j));
     assert!(tracked.len() == inn[0] as usize + inn[1] as usize + inn[2] as usize);
     std::mem::forget(r);
-    std::mem::forget((f, tracked, req, t));
-}
-
-tracing_off! {
-#[kani::proof]
-#[kani::unwind(6)]
-fn max_count_bounds_request_and_tracked_set() {
-    max_count_case([0, 1, 2]);
-}
-}
-
-tracing_off! {
-#[kani::proof]
-#[kani::unwind(6)]
-fn max_count_bounds_request_and_tracked_set_dup() {
-    max_count_case([0, 0, 1]);
+    std::mem::forget((f, tracked, req));
 }
 }
 
@@ -182,25 +197,23 @@ tracing_off! {
 #[kani::proof]
 #[kani::unwind(6)]
 fn combined_returns_only_topics_both_filters_allow() {
-    let t = topics();
-    let req = request(&t, [0, 1, 2]);
+    let req = request();
     let n: usize = kani::any();
     kani::assume(n <= 3);
-    let (tracked, _) = any_tracked(&t);
-    let (w1, a1) = any_whitelist(&t);
-    let (w2, a2) = any_whitelist(&t);
+    let (tracked, _) = any_tracked();
+    let (w1, a1) = any_whitelist();
+    let (w2, a2) = any_whitelist();
     let both = [a1[0] && a2[0], a1[1] && a2[1], a1[2] && a2[2]];
     let mut f = CombinedSubscriptionFilters { filter1: w1, filter2: w2 };
     let r = f.filter_incoming_subscriptions(&req[..n], &tracked);
     match &r {
-        Ok(res) => subset_and_allowed(res, &req, n, &t, &both),
-        Err(_) => assert!(false),
+        Ok(res) => subset_and_allowed(res, &req, n, &both),
+        Err(_) => assert!(false, "the combined whitelist filter rejected a request"),
     }
-    let j: usize = kani::any();
-    kani::assume(j < 3);
-    assert!(f.can_subscribe(&t[j]) == both[j]);
+    let j = any_topic();
+    assert!(f.can_subscribe(&j) == flag(&both, &j));
     std::mem::forget(r);
-    std::mem::forget((f, tracked, req, t));
+    std::mem::forget((f, tracked, req));
 }
 }
 
@@ -209,14 +222,13 @@ tracing_off! {
 #[kani::proof]
 #[kani::unwind(6)]
 fn canary_max_count_rejects_everything() {
-    let t = topics();
-    let req = request(&t, [0, 1, 2]);
-    let (tracked, _) = any_tracked(&t);
-    let (w, _) = any_whitelist(&t);
+    let req = request();
+    let (tracked, _) = any_tracked();
+    let (w, _) = any_whitelist();
     let mut f = MaxCountSubscriptionFilter { filter: w, max_subscribed_topics: 4, max_subscriptions_per_request: 4 };
     let r = f.filter_incoming_subscriptions(&req[..1], &tracked);
     assert!(r.is_err());
     std::mem::forget(r);
-    std::mem::forget((f, tracked, req, t));
+    std::mem::forget((f, tracked, req));
 }
 }
